@@ -23,6 +23,7 @@ import (
 	"fmt"
 	"io"
 	"net/url"
+	"strings"
 
 	"gocloud.dev/blob"
 	_ "gocloud.dev/blob/azureblob" // to support azure blobs
@@ -93,7 +94,8 @@ func (e *ruleSetEndpoint) readAllBlobs(ctx context.Context, bucket *blob.Bucket)
 }
 
 func (e *ruleSetEndpoint) readSingleBlob(ctx context.Context, bucket *blob.Bucket) ([]*config.RuleSet, error) {
-	ruleSet, err := e.readRuleSet(ctx, bucket, e.URL.Path)
+	// the path of the URL starts with a slash, which is not part of the key of the blob
+	ruleSet, err := e.readRuleSet(ctx, bucket, strings.TrimPrefix(e.URL.Path, "/"))
 	if err != nil {
 		if errors.Is(err, config.ErrEmptyRuleSet) {
 			return []*config.RuleSet{}, nil
